@@ -456,85 +456,107 @@ Definition c4_fkids (g : list (N * c4_fnode)) (n : N) : list N :=
   | None => []
   end.
 
+(* state updates of traverseField, one definition each (keeps the terms of the proofs small) *)
+Definition c4fs_upd_calls (st : c4_fst) : c4_fst :=
+  mkC4fst (c4fs_fields st) (c4fs_ann st) (c4fs_bad st) (c4fs_unnamed st) (c4fs_calls st + 1) (c4fs_wloop st)
+          (c4fs_wtwo st) (c4fs_wparent st) (c4fs_wkind st) (c4fs_exp st) (c4fs_maxdepth st) (c4fs_par st) (c4fs_fuel_out st).
+Definition c4fs_upd_fuel (st : c4_fst) : c4_fst :=
+  mkC4fst (c4fs_fields st) (c4fs_ann st) (c4fs_bad st) (c4fs_unnamed st) (c4fs_calls st) (c4fs_wloop st)
+          (c4fs_wtwo st) (c4fs_wparent st) (c4fs_wkind st) (c4fs_exp st) (c4fs_maxdepth st) (c4fs_par st) true.
+Definition c4fs_upd_wloop (st : c4_fst) : c4_fst :=
+  mkC4fst (c4fs_fields st) (c4fs_ann st) (c4fs_bad st) (c4fs_unnamed st) (c4fs_calls st) (c4fs_wloop st + 1)
+          (c4fs_wtwo st) (c4fs_wparent st) (c4fs_wkind st) (c4fs_exp st) (c4fs_maxdepth st) (c4fs_par st) (c4fs_fuel_out st).
+Definition c4fs_upd_wkind (st : c4_fst) : c4_fst :=
+  mkC4fst (c4fs_fields st) (c4fs_ann st) (c4fs_bad st) (c4fs_unnamed st) (c4fs_calls st) (c4fs_wloop st)
+          (c4fs_wtwo st) (c4fs_wparent st) (c4fs_wkind st + 1) (c4fs_exp st) (c4fs_maxdepth st) (c4fs_par st) (c4fs_fuel_out st).
+Definition c4fs_upd_wtwo (st : c4_fst) : c4_fst :=
+  mkC4fst (c4fs_fields st) (c4fs_ann st) (c4fs_bad st) (c4fs_unnamed st) (c4fs_calls st) (c4fs_wloop st)
+          (c4fs_wtwo st + 1) (c4fs_wparent st) (c4fs_wkind st) (c4fs_exp st) (c4fs_maxdepth st) (c4fs_par st) (c4fs_fuel_out st).
+(* if (unnamed_fields_.contains(og)) bad_fields_.insert(og);  and the depth seen so far *)
+Definition c4fs_upd_enter (field : N) (depth : nat) (st : c4_fst) : c4_fst :=
+  mkC4fst (c4fs_fields st) (c4fs_ann st)
+          (if c4_mem field (c4fs_unnamed st) then (if c4_mem field (c4fs_bad st) then c4fs_bad st else field :: c4fs_bad st)
+           else c4fs_bad st)
+          (c4fs_unnamed st) (c4fs_calls st) (c4fs_wloop st)
+          (c4fs_wtwo st) (c4fs_wparent st) (c4fs_wkind st) (c4fs_exp st) (Nat.max (c4fs_maxdepth st) depth) (c4fs_par st) (c4fs_fuel_out st).
+(* fields_[our_field].annotations.emplace_back(field): operator[] creates the entry of our_field; annotation_to_field_[og] = ... *)
+Definition c4fs_upd_annot (our field : N) (st : c4_fst) : c4_fst :=
+  mkC4fst (if c4_mem our (c4fs_fields st) then c4fs_fields st else our :: c4fs_fields st)
+          (field :: c4fs_ann st) (c4fs_bad st) (c4fs_unnamed st) (c4fs_calls st) (c4fs_wloop st)
+          (c4fs_wtwo st) (c4fs_wparent st) (c4fs_wkind st) (c4fs_exp st) (c4fs_maxdepth st) (c4fs_par st) (c4fs_fuel_out st).
+(* "encountered invalid /Parent entry ...; correcting": field.replaceKey("/Parent", parent) *)
+Definition c4fs_upd_correct (field parent : N) (st : c4_fst) : c4_fst :=
+  mkC4fst (c4fs_fields st) (c4fs_ann st) (c4fs_bad st) (c4fs_unnamed st) (c4fs_calls st) (c4fs_wloop st)
+          (c4fs_wtwo st) (c4fs_wparent st + 1) (c4fs_wkind st) (c4fs_exp st) (c4fs_maxdepth st)
+          ((field, parent) :: c4fs_par st) (c4fs_fuel_out st).
+Definition c4fs_upd_named (field : N) (st : c4_fst) : c4_fst :=
+  mkC4fst (if c4_mem field (c4fs_fields st) then c4fs_fields st else field :: c4fs_fields st)
+          (c4fs_ann st) (c4fs_bad st) (c4fs_unnamed st) (c4fs_calls st) (c4fs_wloop st)
+          (c4fs_wtwo st) (c4fs_wparent st) (c4fs_wkind st) (c4fs_exp st) (c4fs_maxdepth st) (c4fs_par st) (c4fs_fuel_out st).
+Definition c4fs_upd_unnamed (field : N) (st : c4_fst) : c4_fst :=
+  mkC4fst (c4fs_fields st) (c4fs_ann st) (c4fs_bad st)
+          (if c4_mem field (c4fs_unnamed st) then c4fs_unnamed st else field :: c4fs_unnamed st)
+          (c4fs_calls st) (c4fs_wloop st)
+          (c4fs_wtwo st) (c4fs_wparent st) (c4fs_wkind st) (c4fs_exp st) (c4fs_maxdepth st) (c4fs_par st) (c4fs_fuel_out st).
+Definition c4fs_upd_exp (field : N) (st : c4_fst) : c4_fst :=
+  mkC4fst (c4fs_fields st) (c4fs_ann st) (c4fs_bad st) (c4fs_unnamed st) (c4fs_calls st) (c4fs_wloop st)
+          (c4fs_wtwo st) (c4fs_wparent st) (c4fs_wkind st) (field :: c4fs_exp st) (c4fs_maxdepth st) (c4fs_par st) (c4fs_fuel_out st).
+Definition c4fs_upd_bad (kid : N) (st : c4_fst) : c4_fst :=
+  mkC4fst (c4fs_fields st) (c4fs_ann st) (if c4_mem kid (c4fs_bad st) then c4fs_bad st else kid :: c4fs_bad st)
+          (c4fs_unnamed st) (c4fs_calls st) (c4fs_wloop st)
+          (c4fs_wtwo st) (c4fs_wparent st) (c4fs_wkind st) (c4fs_exp st) (c4fs_maxdepth st) (c4fs_par st) (c4fs_fuel_out st).
+
+Definition c4_fis_field (g : list (N * c4_fnode)) (st : c4_fst) (field : N) (nd : c4_fnode) : bool :=
+  c4f_T nd || (match c4f_kids nd with Some _ => true | None => false end) || c4_fhasFT g (c4fs_par st) field nd.
+Definition c4_fis_annot (nd : c4_fnode) : bool :=
+  negb (match c4f_kids nd with Some _ => true | None => false end) && c4f_wid nd.
+(* the /Parent comparison: 0 = go on, 1 = two parents (return true), 2 = loop (return false), 3 = corrected *)
+Definition c4_fpcheck (g : list (N * c4_fnode)) (st : c4_fst) (field parent : N) (depth : nat) (nd : c4_fnode) : nat :=
+  let par := c4_fparent (c4fs_par st) field nd in
+  if (match depth with O => true | _ => false end) || (par =? parent) then 0%nat
+  else if c4_mem field (c4_fkids g par) then 1%nat
+  else if c4_mem parent (c4_fkids g par) then 2%nat
+  else 3%nat.
+(* the bookkeeping of a field that is about to have its /Kids traversed *)
+Definition c4fs_upd_record (field parent : N) (pc : nat) (nd : c4_fnode) (st : c4_fst) : c4_fst :=
+  let st := match pc with 3%nat => c4fs_upd_correct field parent st | _ => st end in
+  let st := if c4f_T nd then c4fs_upd_named field st
+            else if negb (c4_fis_annot nd) then c4fs_upd_unnamed field st else st in
+  c4fs_upd_exp field st.
+
 (* AcroForm::traverseField(field, parent, depth) -> (returned bool, state) *)
 Fixpoint c4_ftrav (fuel : nat) (g : list (N * c4_fnode)) (field parent : N) (depth : nat) (st : c4_fst) : bool * c4_fst :=
   match fuel with
-  | O => (false, mkC4fst (c4fs_fields st) (c4fs_ann st) (c4fs_bad st) (c4fs_unnamed st) (c4fs_calls st) (c4fs_wloop st)
-                         (c4fs_wtwo st) (c4fs_wparent st) (c4fs_wkind st) (c4fs_exp st) (c4fs_maxdepth st) (c4fs_par st) true)
+  | O => (false, c4fs_upd_fuel st)
   | S f =>
-    let st := mkC4fst (c4fs_fields st) (c4fs_ann st) (c4fs_bad st) (c4fs_unnamed st) (c4fs_calls st + 1) (c4fs_wloop st)
-                      (c4fs_wtwo st) (c4fs_wparent st) (c4fs_wkind st) (c4fs_exp st) (c4fs_maxdepth st) (c4fs_par st) (c4fs_fuel_out st) in
-    let wloop st := mkC4fst (c4fs_fields st) (c4fs_ann st) (c4fs_bad st) (c4fs_unnamed st) (c4fs_calls st) (c4fs_wloop st + 1)
-                      (c4fs_wtwo st) (c4fs_wparent st) (c4fs_wkind st) (c4fs_exp st) (c4fs_maxdepth st) (c4fs_par st) (c4fs_fuel_out st) in
-    let wkind st := mkC4fst (c4fs_fields st) (c4fs_ann st) (c4fs_bad st) (c4fs_unnamed st) (c4fs_calls st) (c4fs_wloop st)
-                      (c4fs_wtwo st) (c4fs_wparent st) (c4fs_wkind st + 1) (c4fs_exp st) (c4fs_maxdepth st) (c4fs_par st) (c4fs_fuel_out st) in
-    if Nat.ltb 100 depth then (false, st)
-    else if field =? 0 then (false, wkind st)                                  (* direct object *)
-    else if field =? parent then (false, wloop st)
+    if Nat.ltb 100 depth then (false, c4fs_upd_calls st)
+    else if field =? 0 then (false, c4fs_upd_wkind (c4fs_upd_calls st))                   (* direct object *)
+    else if field =? parent then (false, c4fs_upd_wloop (c4fs_upd_calls st))
     else match c4_find g field with
-    | None => (false, wkind st)                                                (* not a dictionary *)
+    | None => (false, c4fs_upd_wkind (c4fs_upd_calls st))                               (* not a dictionary *)
     | Some nd =>
-      let bad := if c4_mem field (c4fs_unnamed st) then (if c4_mem field (c4fs_bad st) then c4fs_bad st else field :: c4fs_bad st)
-                 else c4fs_bad st in
-      let st := mkC4fst (c4fs_fields st) (c4fs_ann st) bad (c4fs_unnamed st) (c4fs_calls st) (c4fs_wloop st)
-                        (c4fs_wtwo st) (c4fs_wparent st) (c4fs_wkind st) (c4fs_exp st) (Nat.max (c4fs_maxdepth st) depth) (c4fs_par st) (c4fs_fuel_out st) in
-      if c4_mem field (c4fs_fields st) || c4_mem field (c4fs_ann st) || c4_mem field (c4fs_bad st)
-      then (false, wloop st)
+      let st1 := c4fs_upd_enter field depth (c4fs_upd_calls st) in
+      if c4_mem field (c4fs_fields st1) || c4_mem field (c4fs_ann st1) || c4_mem field (c4fs_bad st1)
+      then (false, c4fs_upd_wloop st1)
+      else if negb (c4_fis_field g st1 field nd) && negb (c4_fis_annot nd) then (false, c4fs_upd_wkind st1)
       else
-        let haskids := match c4f_kids nd with Some _ => true | None => false end in
-        let is_field := c4f_T nd || haskids || c4_fhasFT g (c4fs_par st) field nd in
-        let is_annot := negb haskids && c4f_wid nd in
-        if negb is_field && negb is_annot then (false, wkind st)
+        let st2 := if c4_fis_annot nd
+                   then c4fs_upd_annot (if c4_fis_field g st1 field nd then field else parent) field st1
+                   else st1 in
+        if negb (c4_fis_field g st1 field nd) then (true, st2)
         else
-          (* fields_[our_field].annotations.emplace_back: operator[] creates the entry of our_field *)
-          let st := if is_annot
-                    then let our := if is_field then field else parent in
-                         mkC4fst (if c4_mem our (c4fs_fields st) then c4fs_fields st else our :: c4fs_fields st)
-                                 (field :: c4fs_ann st) (c4fs_bad st) (c4fs_unnamed st) (c4fs_calls st) (c4fs_wloop st)
-                                 (c4fs_wtwo st) (c4fs_wparent st) (c4fs_wkind st) (c4fs_exp st) (c4fs_maxdepth st) (c4fs_par st) (c4fs_fuel_out st)
-                    else st in
-          if negb is_field then (true, st)
-          else
-            let pcheck :=    (* 0 = go on, 1 = two parents (return true), 2 = loop (return false), 3 = corrected *)
-              let par := c4_fparent (c4fs_par st) field nd in
-              if (match depth with O => true | _ => false end) || (par =? parent) then 0%nat
-              else if c4_mem field (c4_fkids g par) then 1%nat
-              else if c4_mem parent (c4_fkids g par) then 2%nat
-              else 3%nat in
-            match pcheck with
-            | 1%nat => (true, mkC4fst (c4fs_fields st) (c4fs_ann st) (c4fs_bad st) (c4fs_unnamed st) (c4fs_calls st) (c4fs_wloop st)
-                                      (c4fs_wtwo st + 1) (c4fs_wparent st) (c4fs_wkind st) (c4fs_exp st) (c4fs_maxdepth st) (c4fs_par st) (c4fs_fuel_out st))
-            | 2%nat => (false, wloop st)
-            | pc =>
-              let st := match pc with
-                        | 3%nat => mkC4fst (c4fs_fields st) (c4fs_ann st) (c4fs_bad st) (c4fs_unnamed st) (c4fs_calls st) (c4fs_wloop st)
-                                           (c4fs_wtwo st) (c4fs_wparent st + 1) (c4fs_wkind st) (c4fs_exp st) (c4fs_maxdepth st)
-                                           ((field, parent) :: c4fs_par st)          (* field.replaceKey("/Parent", parent) *)
-                                           (c4fs_fuel_out st)
-                        | _ => st
-                        end in
-              let st := if c4f_T nd
-                        then mkC4fst (if c4_mem field (c4fs_fields st) then c4fs_fields st else field :: c4fs_fields st)
-                                     (c4fs_ann st) (c4fs_bad st) (c4fs_unnamed st) (c4fs_calls st) (c4fs_wloop st)
-                                     (c4fs_wtwo st) (c4fs_wparent st) (c4fs_wkind st) (c4fs_exp st) (c4fs_maxdepth st) (c4fs_par st) (c4fs_fuel_out st)
-                        else if negb is_annot
-                        then mkC4fst (c4fs_fields st) (c4fs_ann st) (c4fs_bad st)
-                                     (if c4_mem field (c4fs_unnamed st) then c4fs_unnamed st else field :: c4fs_unnamed st)
-                                     (c4fs_calls st) (c4fs_wloop st)
-                                     (c4fs_wtwo st) (c4fs_wparent st) (c4fs_wkind st) (c4fs_exp st) (c4fs_maxdepth st) (c4fs_par st) (c4fs_fuel_out st)
-                        else st in
-              let st := mkC4fst (c4fs_fields st) (c4fs_ann st) (c4fs_bad st) (c4fs_unnamed st) (c4fs_calls st) (c4fs_wloop st)
-                                (c4fs_wtwo st) (c4fs_wparent st) (c4fs_wkind st) (field :: c4fs_exp st) (c4fs_maxdepth st) (c4fs_par st) (c4fs_fuel_out st) in
-              (true,
-               fold_left (fun st kid =>
-                            if c4_mem kid (c4fs_bad st) then st
-                            else let '(r, st') := c4_ftrav f g kid field (S depth) st in
-                                 if r then st'
-                                 else mkC4fst (c4fs_fields st') (c4fs_ann st') (if c4_mem kid (c4fs_bad st') then c4fs_bad st' else kid :: c4fs_bad st')
-                                              (c4fs_unnamed st') (c4fs_calls st') (c4fs_wloop st')
-                                              (c4fs_wtwo st') (c4fs_wparent st') (c4fs_wkind st') (c4fs_exp st') (c4fs_maxdepth st') (c4fs_par st') (c4fs_fuel_out st'))
-                         (match c4f_kids nd with Some l => l | None => [] end) st)
-            end
+          match c4_fpcheck g st2 field parent depth nd with
+          | 1%nat => (true, c4fs_upd_wtwo st2)
+          | 2%nat => (false, c4fs_upd_wloop st2)
+          | pc =>
+            (true,
+             fold_left (fun st kid =>
+                          if c4_mem kid (c4fs_bad st) then st
+                          else let '(r, st') := c4_ftrav f g kid field (S depth) st in
+                               if r then st' else c4fs_upd_bad kid st')
+                       (match c4f_kids nd with Some l => l | None => [] end)
+                       (c4fs_upd_record field parent pc nd st2))
+          end
     end
   end.
 
